@@ -114,6 +114,8 @@ def run(ctx):
     progs, c = gen(ctx, "pairs", "PairInit", "PairNext", "EmitPair", {"N": 1}, extra_inv=["Injective"])
     trace, k = run_progs(ctx, progs, "MC_Paths pairs", kd); total += k
     ctx.cov["samples"].append(json.loads(lib.read_lines(trace)[3]))
+    progs, c = gen(ctx, "typed", "TypedInit", "TypedNext", "EmitTyped", {"N": 1})
+    trace, k = run_progs(ctx, progs, "MC_Paths typed key pairs", kd); total += k
     progs, c = extra_programs(ctx)
     trace, k = run_progs(ctx, progs, "cdn key lengths / ranges / fixed-width helpers", kd); total += k
     ctx.cov["traces_validated_against_impl"] = total
